@@ -415,9 +415,7 @@ impl RawOpaquePool {
         let slab = unsafe { self.slabs.get_unchecked_mut(handle.slab_index()) };
 
         // SAFETY: Caller guarantees the handle is valid for this pool.
-        unsafe {
-            slab.remove(handle.slab_handle());
-        }
+        let old_meta = unsafe { slab.vacate(handle.slab_handle()) };
 
         // Update our tracked length since we just removed an object.
         // This cannot wrap around because we just removed an object,
@@ -435,6 +433,9 @@ impl RawOpaquePool {
                     .update_slab_status(handle.slab_index(), true);
             }
         }
+
+        // Only now run the destructor: if it panics, the pool is already consistent.
+        drop(old_meta);
     }
 
     /// Removes an object from the pool and returns the object.
